@@ -169,9 +169,15 @@ def build(spec: dict, log: typing.Optional[str] = None, opaque: bool = False) ->
     render alike (equal builder reprs, different content)."""
     names = {}
     nodes: list = []
+    shared = {int(k): v for k, v in (spec.get('shared_builder') or {}).items()}
     for i, m in enumerate(spec['nodes']):
         g = m['group']
-        if g == i:
+        if g == i and g in shared:
+            # a second worker group created from the very same builder object (an operator instance composed twice, a
+            # hand-written operator keeping one builder): same hyper-parameters, own state
+            names[g] = names[shared[g]]
+            nodes.append(flow.Worker(nodes[shared[g]].builder, m['szin'], m['szout']))
+        elif g == i:
             names[g] = f'n{g}'
             given = symbolic.Opaque(names[g]) if opaque else names[g]
             nodes.append(flow.Worker(symbolic.builder(given, m['stateful'], max(1, m['szout']), log, bool(m.get('hollow'))),
